@@ -146,6 +146,10 @@ func isBasicKind(k reflect.Kind) bool {
 
 // Method computes the expected result of calling method ms with source src.
 func (r *Ref) Method(ms *MethodSpec, src reflect.Value, T reflect.Type) (reflect.Value, error) {
+	if bf, ok := r.Extends[[2]reflect.Type{src.Type(), T}]; ok {
+		// a declared method whose pair has an extend function delegates to that function
+		return r.callFunc(bf.spec, bf.fn, src, T, nil)
+	}
 	st := state{flags: ms.Flags, ms: ms, inline: true}
 	st.ftype = T
 	if T.Kind() == reflect.Ptr && T.Elem().Kind() == reflect.Struct {
@@ -511,6 +515,13 @@ func (r *Ref) callFunc(spec *FuncSpec, fn reflect.Value, src reflect.Value, T re
 				return reflect.Value{}, &Unsupported{"function wants a source but the setting has none"}
 			}
 			if !src.Type().AssignableTo(ft.In(i)) {
+				if reflect.PtrTo(src.Type()).AssignableTo(ft.In(i)) {
+					// map . F | FUNC(*S) in a method whose source is *S: the function receives the pointer
+					p := reflect.New(src.Type())
+					p.Elem().Set(forceIface(src))
+					args[i] = p
+					continue
+				}
 				return reflect.Value{}, &Unsupported{"source not assignable to func param"}
 			}
 			args[i] = forceIface(src)
